@@ -236,6 +236,39 @@ impl Prop for C11 {
                 },
             ));
         }
+        f.push(Family::new(
+            "zone-case-and-connectives",
+            Mode::Full,
+            "'T z1 CONN z2' and 'T CONN z2' for the connectives [to, in, as, into], zone names [EST, CET, IST, GMT+3, GMT-3:30] written UPPER, lower and Mixed case on either side, T in [11:30, 0:15]: the conversion does not depend on the letter case of a zone name or on the connective",
+            move |ch| {
+                let zs: [(&str, i32); 5] = [("EST", *spec().zones.get("EST").unwrap_or(&0)), ("CET", *spec().zones.get("CET").unwrap_or(&0)), ("IST", *spec().zones.get("IST").unwrap_or(&0)), ("GMT+3", 180), ("GMT-3:30", -210)];
+                let recase = |z: &str, how: usize| match how {
+                    0 => z.to_string(),
+                    1 => z.to_lowercase(),
+                    _ => {
+                        let mut c = z.chars();
+                        c.next().map(|f| f.to_uppercase().collect::<String>() + &c.as_str().to_lowercase()).unwrap_or_default()
+                    }
+                };
+                let (z1, o1) = *ch.pick(&zs);
+                let (z2, o2) = *ch.pick(&zs);
+                let conn = *ch.pick(&["to", "in", "as", "into"]);
+                let (c1, c2) = (ch.choose(3), ch.choose(3));
+                let (tt, wall) = *ch.pick(&[("11:30", hms(11, 30, 0)), ("0:15", hms(0, 15, 0))]);
+                let with_source = ch.flag();
+                // "in" is also the inch: a zone-less time followed by 'in' is left out
+                if !with_source && conn == "in" {
+                    return None;
+                }
+                let (text, utc_mod) = if with_source {
+                    (format!("{} {} {} {}", tt, recase(z1, c1), conn, recase(z2, c2)), m(wall - o1 as i64 * 60))
+                } else {
+                    (format!("{} {} {}", tt, conn, recase(z2, c2)), m(wall))
+                };
+                let line = LineCase::new(text, Expect::Unspecified, "zone-case");
+                Some(Case::Line { line, want: Want::Time { utc_mod, zone: z2.to_string(), off: o2 } })
+            },
+        ));
         // (c) conversions: all ordered pairs -----------------------------------------------
         {
             let zones = zones.clone();
